@@ -2,6 +2,7 @@ package sym
 
 import (
 	"fmt"
+	"math/bits"
 	"go/token"
 	"go/types"
 	"math"
@@ -308,7 +309,17 @@ func (e *Exec) binopTerm(op token.Token, a, b *smt.Term, xt, yt types.Type) Valu
 			return smt.BvBin(smt.OBvSub, a, b)
 		case token.MUL:
 			if w == 64 && e.Cfg.UFMul && !a.IsConst() && !b.IsConst() {
-				return smt.App("M64", smt.BV(64), a, b)
+				// commutative by construction: arguments in a canonical order
+				if smt.StructHash(a) > smt.StructHash(b) {
+					a, b = b, a
+				}
+				m := smt.App("M64", smt.BV(64), a, b)
+				// range lemma: the product of two bounded factors is bounded (no wrap-around)
+				ua, ub := smt.UMax(a), smt.UMax(b)
+				if hi, lo := bits.Mul64(ua, ub); hi == 0 {
+					e.pc = append(e.pc, smt.BvCmp(smt.OBvUle, m, smt.BVC(64, lo)))
+				}
+				return m
 			}
 			return smt.BvBin(smt.OBvMul, a, b)
 		case token.QUO:
